@@ -824,10 +824,13 @@ def run(ctx):
         # the default export IS the opset-23 export unless the registered testcase pins an opset
         return k == "reg" and ident in pinned_opset and pinned_opset[ident] != DEFAULT
     jobs = []
+    quick_extra_opsets = {claimed[0], DEFAULT, DEFAULT + 1, claimed[-1]}      # quick tier: the hand-written control-flow programs at 4 opsets
     for (k, ident) in cases_claim:
         if needs_own_reference(k, ident) or DEFAULT not in claimed:
             jobs.append((k, ident, None, True, ort_max))
         for v in claimed:
+            if quick and k == "extra" and v not in quick_extra_opsets:
+                continue
             jobs.append((k, ident, v, True, ort_max))
     ref_cases = set(cases_claim)
     for (k, ident) in cases_explore:
@@ -1276,6 +1279,9 @@ def replay(path):
         return 1
     _spawn_env()
     kind, ident, v = r["kind"], r["ident"], r["opset"]
+    jr = None
+    if kind == "gate":                     # eager JAX first: a conversion may leave plugin primitives in jit caches
+        jr = _gate_reference([ident]).get(ident)
     try:
         key, m, given = _export(kind, ident, v)
     except Exception as e:
@@ -1291,7 +1297,20 @@ def replay(path):
         chk = str(e)[:300]
     print("onnx.checker:", chk)
     bad = bool(probs) or decl != v
-    if r.get("check") == "numeric":
+    if kind == "gate":
+        bad = bad or chk is not None
+        if chk is None and v <= _ort_max_opset(int(onnx.defs.onnx_opset_version())):
+            try:
+                sess = _ort_session(m.SerializeToString())
+                feeds, why = _synth_inputs(m, key, given)
+                outs = sess.run(None, feeds)
+                d = _compare_with_jax(jr, outs) if isinstance(jr, list) and _gate_programs()[ident]["numeric"] else None
+                print("onnxruntime vs eager JAX:", d or "equal")
+                bad = bad or d is not None
+            except Exception as e:
+                print("onnxruntime:", str(e)[:300])
+                bad = bad or not _ort_unsupported(str(e))
+    elif r.get("check") == "numeric":
         differs, detail = _recheck_numeric((kind, ident, v))
         print("numeric:", differs, detail)
         bad = bad or differs
